@@ -79,21 +79,19 @@ def main(argv):
             shutil.rmtree(tmp, ignore_errors=True)
 
 
-def run(prop, tier, seed, facts_path, t0):
+def run_rules(prop, tier, facts_path, label):
     crate = Crate(facts_path)
     if crate.prog.d.get("crate") != "graaf":
-        print("CHECKER-ERROR property=%s fact file does not describe the graaf crate" % prop)
-        return 2
-    cfg = crate.prog.config
-    known, fixed = load_known(os.path.join(VERIF, "known_findings.txt"))
+        return None, None, None
     findings = []
     rule_reports = []
     for rname in PROPERTY_RULES[prop]["rules"]:
         rule = RULES[rname]
         rep = rule(crate, prop, tier)
+        rep["config"] = label
         rule_reports.append(rep)
-        print("rule %-22s instances=%d obligations=%d discharged=%d violations=%d %s" % (
-            rep["rule"], rep.get("instances", 0), rep.get("obligations", 0), rep.get("discharged", 0),
+        print("rule %-22s [%s] instances=%d obligations=%d discharged=%d violations=%d %s" % (
+            rep["rule"], label, rep.get("instances", 0), rep.get("obligations", 0), rep.get("discharged", 0),
             len(rep["violations"]), rep.get("note", "")))
         for name, (got, floor) in rep.get("floors", {}).items():
             if got < floor:
@@ -101,6 +99,36 @@ def run(prop, tier, seed, facts_path, t0):
                                         "anchor-missing: %s: found %d, expected at least %d (the code this rule "
                                         "is anchored in was not found)" % (name, got, floor)))
         findings.extend(rep["violations"])
+    return crate, rule_reports, findings
+
+
+def run(prop, tier, seed, facts_path, t0):
+    crate, rule_reports, findings = run_rules(prop, tier, facts_path, "dev")
+    if crate is None:
+        print("CHECKER-ERROR property=%s fact file does not describe the graaf crate" % prop)
+        return 2
+    extra = {}
+    if tier == "thorough":
+        # second build configuration: release-like (no overflow checks, no debug assertions)
+        tmp2 = tempfile.mkdtemp(prefix="gsa-facts2.")
+        try:
+            f2 = os.path.join(tmp2, "facts.json")
+            if not export_facts(f2, "-C overflow-checks=off -C debug-assertions=off"):
+                print("CHECKER-ERROR property=%s fact export failed for the release-like configuration" % prop)
+                return 2
+            c2, rep2, find2 = run_rules(prop, tier, f2, "release-like")
+            rule_reports.extend(rep2)
+            seen = {f.key for f in findings}
+            for f in find2:
+                if f.key not in seen:
+                    f.msg += " [release-like configuration]"
+                    findings.append(f)
+            extra["configurations"] = ["dev (overflow checks on)", "release-like (overflow checks off, debug assertions off)"]
+        finally:
+            import shutil
+            shutil.rmtree(tmp2, ignore_errors=True)
+        extra.update(thorough_extras(prop))
+    known, fixed = load_known(os.path.join(VERIF, "known_findings.txt"))
     # known findings
     new = []
     kf_lines = []
@@ -113,10 +141,11 @@ def run(prop, tier, seed, facts_path, t0):
     for line in sorted(set(kf_lines)):
         print(line)
     wall = time.time() - t0
-    write_evidence(prop, tier, seed, crate, rule_reports, findings, new, wall)
+    write_evidence(prop, tier, seed, crate, rule_reports, findings, new, wall, extra)
     if new:
-        os.makedirs(os.path.join(VERIF, "replay"), exist_ok=True)
-        rp = os.path.join(VERIF, "replay", "%s-violations.json" % prop)
+        rdir = os.path.join(VERIF, "replay") if not os.environ.get("GSA_NO_EVIDENCE") else tempfile.gettempdir()
+        os.makedirs(rdir, exist_ok=True)
+        rp = os.path.join(rdir, "%s-violations.json" % prop)
         json.dump({"property": prop, "tier": tier, "violations": [f.to_json() for f in new]}, open(rp, "w"), indent=1)
         for f in new:
             print("  violation rule=%s key=%s" % (f.rule, f.key))
@@ -127,7 +156,18 @@ def run(prop, tier, seed, facts_path, t0):
     return 0
 
 
-def write_evidence(prop, tier, seed, crate, reports, findings, new, wall):
+def thorough_extras(prop):
+    """compile-fail witnesses for the property (if any)"""
+    try:
+        from gsa.witness import run_witnesses
+    except ImportError:
+        return {}
+    return run_witnesses(prop)
+
+
+def write_evidence(prop, tier, seed, crate, reports, findings, new, wall, extra=None):
+    if os.environ.get("GSA_NO_EVIDENCE"):
+        return      # runs against scratch copies (self tests) must not overwrite the evidence of /repo
     meta = PROPERTY_RULES[prop]
     obligations = sum(r.get("obligations", 0) for r in reports)
     discharged = sum(r.get("discharged", 0) for r in reports)
@@ -161,6 +201,7 @@ def write_evidence(prop, tier, seed, crate, reports, findings, new, wall):
             "exhaustive": True,
             "findings_total": len(findings),
             "findings_known": len(findings) - len(new),
+            **(extra or {}),
         },
         "assumptions": meta.get("assumptions", []),
         "wall_s": round(wall, 2),
